@@ -1,7 +1,7 @@
-(** The VARIANT command substitution (Model/SubstVariant.v: the output is spliced as text, a
-    double-quoted token keeps everything but the trailing newlines): the loop splices the output
-    of the one substitution whatever dollars it contains, as long as the result has no
-    dollar-paren sequence (which the loop would run again). *)
+(** The VARIANT command substitution (Model/SubstVariant.v: a double-quoted token keeps everything
+    but the trailing newlines, [trim_out]; the splice is the one of the main model): the loop splices
+    the tag-dependent trimmed output of the one substitution whatever dollars it contains, as long as
+    the result has no dollar-paren sequence (which the loop would run again). *)
 From Coq Require Import List NArith ZArith Bool Lia.
 From Cicada Require Import Base.Chars Base.Tag Base.Regex Gen.ShellRegexes Model.Expand
   Model.SubstVariant Proofs.ExpandBasics Proofs.SubstProofs.
@@ -10,20 +10,13 @@ From Coq Require String.
 Import String.StringSyntax.
 Local Open Scope N_scope.
 
-Lemma dollar_splice_v_eq before cmd tail post o :
-  dollar_splice_v before cmd tail post o = before ++ o ++ tail ++ post.
-Proof.
-  unfold dollar_splice_v. destruct (head_of before) as [pre head] eqn:E.
-  apply head_of_app in E. subst before. rewrite <- !app_assoc. reflexivity.
-Qed.
-
 Lemma dollar_loop_v_S f W tg line log :
   dollar_loop_v (S f) W tg line log
   = if negb (should_do_dollar line) then Ok (Some line, log)
     else match find_dollar line with
          | None => Ok (None, log)
          | Some (before, cmd, tail, post) =>
-             dollar_loop_v f W tg (dollar_splice_v before cmd tail post (trim_out tg (oracle_out W cmd))) (log ++ [cmd])
+             dollar_loop_v f W tg (dollar_splice before cmd tail post (trim_out tg (oracle_out W cmd))) (log ++ [cmd])
          end.
 Proof. reflexivity. Qed.
 
@@ -46,7 +39,7 @@ Proof.
   rewrite dollar_loop_v_S.
   rewrite (should_do_true head cmd tail Hne Hc41 Hx). cbn [negb].
   rewrite line_norm. rewrite find_dollar_mid by assumption.
-  rewrite dollar_splice_v_eq. rewrite app_nil_r.
+  rewrite dollar_splice_eq. rewrite app_nil_r.
   rewrite dollar_loop_v_S.
   erewrite should_do_needs_dollar_paren by exact Ho. reflexivity.
 Qed.
@@ -76,12 +69,6 @@ Proof.
 Qed.
 
 (* ================================================================== concrete examples *)
-(** $(x) where x prints a$1b<newline> : the output is text, $1 stays *)
-Definition W_tpl_v := world_of [] [([120], Some [97; 36; 49; 98; 10])].
-Example variant_template_kept :
-  dollar_loop_v 2 W_tpl_v TNone [36; 40; 120; 41] [] = Ok (Some [97; 36; 49; 98], [[120]]).
-Proof. rewrite !dollar_loop_v_S. vm_compute. reflexivity. Qed.
-
 (** "p$(x)q" where x prints <blank>v<blank><newline> : inside double quotes the blanks are kept
     and the newline is dropped; outside all surrounding white space goes as before *)
 Definition W_ws_v := world_of [] [([120], Some [32; 118; 32; 10])].
@@ -93,17 +80,10 @@ Example variant_unquoted_trims :
   dollar_loop_v 2 W_ws_v TNone [112; 36; 40; 120; 41; 113] [] = Ok (Some [112; 118; 113], [[120]]).
 Proof. rewrite !dollar_loop_v_S. vm_compute. reflexivity. Qed.
 
-(** C12-fix-2: with the closure replacer tilde expansion is home ++ rest for EVERY home directory *)
-Lemma home_replace_v_eq W rest : home_replace_v W rest = home W ++ rest.
-Proof.
-  unfold home_replace_v, split_nl. destruct (span not_nl rest) as [tl post] eqn:E.
-  apply span_app in E. rewrite E, app_assoc. reflexivity.
-Qed.
-
-Print Assumptions dollar_splice_v_eq.
+Print Assumptions trim_out_dq.
+Print Assumptions trim_out_none.
 Print Assumptions dollar_loop_v_splices.
 Print Assumptions dollar_loop_v_dq.
 Print Assumptions dollar_loop_v_unquoted.
-Print Assumptions variant_template_kept.
 Print Assumptions variant_dq_keeps_blanks.
 Print Assumptions variant_unquoted_trims.
